@@ -6,6 +6,7 @@ package main
 // tag (dataframe.VerifApplyGate) and is normally built with -race.
 
 import (
+	"errors"
 	"fmt"
 	"runtime"
 	"sync"
@@ -38,6 +39,17 @@ func aplFn(tag int) dataframe.FuncType {
 			out := make([]any, len(xs), len(xs)+1)
 			copy(out, xs)
 			return append(out, 7)
+		}
+	case 13:
+		return func(xs []any) any {
+			if len(xs) > 0 {
+				if v, ok := xs[0].(int); ok && v < 0 {
+					return errors.New("negative amount")
+				}
+			}
+			out := make([]any, len(xs))
+			copy(out, xs)
+			return out
 		}
 	case 12:
 		return func(xs []any) any {
@@ -81,12 +93,24 @@ func genApl(r *Rng, tier string) *Enc {
 	}
 	if axis == 1 && r.Chance(15) {
 		tag = 10 // mixed result kinds: a single marker for rows starting with nil or text, the whole row otherwise
+	} else if axis == 1 && r.Chance(10) {
+		tag = 13 // an error VALUE as the single result of some rows
 	}
 	if axis == 0 {
 		tag = r.Intn(8)
 		if r.Chance(25) {
 			tag = Pick(r, []int{10, 11, 12}) // column-wise: mixed kinds, a longer slice, a shorter slice
 		}
+	}
+	if df.Ncols() > 0 && r.Chance(12) {
+		// the frame has a history: Apply ran on it once, then a column was renamed (nothing remembered from the
+		// first call may leak into the recorded one)
+		guard(func() error {
+			dataframe.VerifApplyGate = nil
+			df.Apply(applyFn(0), axis)
+			old := Pick(r, df.ColumnNames())
+			return df.RenameColumn(old, old+"z")
+		})
 	}
 	e.Tok("F")
 	e.Frame(df)
